@@ -1,6 +1,6 @@
 #!/bin/sh
 # usage: tools/run_all.sh [quick|thorough] [parallelism]   -- runs every registered check on /repo, prints one line each
 tier=${1:-quick}; par=${2:-4}
-cd /verif
+cd "$(dirname "$0")/.."
 ids=$(python3 -c "import json;print(' '.join(c['property_id'] for c in json.load(open('MANIFEST.json'))['checks']))")
 echo $ids | tr ' ' '\n' | xargs -P $par -I{} sh -c "./check {} --tier $tier > run/all-{}.log 2>&1; echo {} rc=\$? \$(tail -1 run/all-{}.log)"
